@@ -63,6 +63,17 @@ How the obligations are stated (so that they do not depend on one spelling of th
                that route (truncate, pop, retain, sort ...) makes the relay unrecognised => alarm.
                The key of a process environment is taken from all places where the result of that per-directory read is
                stored (the field assignment sees the private helper's returned map, the helper's inserts carry the key).
+               The scope table is also read in every *frame* in which a READ_ENV_DIR effect of the layer reader runs (Effects
+               chain with substituted arguments): a private non-generic body behind the public function, and a loop over a
+               literal table of (directory name, &mut field) rows, unrolled per row, where `*target = read(..)?` stores into
+               the field the row's reference stands for (H.reader_scope_table (e)).
+  suffix table the writer's suffix is a *function of the entry's behaviour*: a piece of the file name that is not already a
+               `match` is evaluated once per variant with the scenario evaluator (H.behaviour_function: a lookup in a shared
+               (behaviour, suffix) table with find / find_map / position, map_or fallbacks, indexing are computed), a literal
+               "." directly before bare suffixes is folded into them.  A piece that stays a computed value leaves the file
+               name UNPROVEN (R2/writer/file-name), never VIOLATED.
+  mkdir        `DirBuilder::create` is a directory creation (H.EffectsX vocabulary: confinement, order, result), recursive
+               iff its builder was configured with recursive(true) (H.mkdir_recursive; undecided configuration => UNPROVEN).
 """
 from . import layer_env_common as L
 from . import C03_helpers as H
@@ -111,6 +122,13 @@ def run(ctx, rep):
         if scope is None or cs is None:
             rep.unproven('R1', 'writer/unrecognised-write', e.where(), 'file write whose delta / directory is not recognised: %s (%s)' % (vstr(pathv)[:100], e.via()))
     unrecognised = [r for r in wcalls if r[1] is None or r[2] is None]
+    # files opened through an OpenOptions configuration that is not understood (lib kind OPEN: mutating, contents unknown)
+    # are writes the table does not see: a scope without a recognised write is then undecided, not missing
+    opaque_opens = [e for e in E.expand(wf, 'may') if e.kind == 'OPEN']
+    for e in opaque_opens:
+        rep.unproven('R1', 'writer/unrecognised-write', e.where(), 'file opened with an OpenOptions configuration that is not recognised as create + truncate + write: %s (%s)'
+                     % (vstr(e.path)[:100] if e.path is not None else '?', e.via()))
+    unrecognised = unrecognised + opaque_opens
     for scope, want in SPEC_SCOPES.items():
         got = wt.get(scope)
         if got is None and unrecognised:
@@ -149,6 +167,13 @@ def run(ctx, rep):
     # ---- R2 ------------------------------------------------------------------------------------
     with H.closure_calls_expanded():
         wd, ws, winfo = L.writer_suffix_table(prog, slw)
+        if winfo.get('suffix_pushes') != 1 or winfo.get('odd') or winfo.get('name_parts') != ['NAME', 'SUFFIX']:
+            # the same table on the normal form of the file-name pieces: the suffix as a function of the entry's behaviour
+            # evaluated per variant (a lookup in a shared (behaviour, suffix) table = the `match`), literal text before it
+            # folded into its arms (name + "." + suffix = name + ".suffix"); taken only when it decides the shape
+            wd2, ws2, winfo2 = H.writer_suffix_table_nf(prog, slw)
+            if winfo2.get('suffix_pushes') == 1 and not winfo2.get('odd') and winfo2.get('name_parts') == ['NAME', 'SUFFIX']:
+                wd, ws, winfo = wd2, ws2, winfo2
     hd, rs, rinfo = H.reader_behaviour(prog, sl)
     rep.analysed(wd)
     wdw = '%s:%d' % (wd.file, wd.line)
@@ -189,7 +214,10 @@ def run(ctx, rep):
     rep.check(not extra, 'R2', 'reader/extra', hdw, 'reader accepts no further extensions', 'reader accepts undefined extensions %s' % extra)
     # the joined file name is <variable name> followed by <suffix>, nothing else
     pc = winfo.get('push_call')
-    if winfo.get('name_parts') != ['NAME', 'SUFFIX'] and (not winfo.get('name_parts') or any(('vec-mutated' in x or x.startswith('?<')) for x in winfo['name_parts'])):
+    # (a piece that is neither the entry's name, nor a decided function of its behaviour, nor literal text is a computed
+    # value the rule does not understand: the name is then undecided, not wrong)
+    computed = [x for x in (winfo.get('name_parts') or ()) if x not in ('NAME', 'SUFFIX', 'SUFFIX-OF-ANOTHER-ENTRY') and not x.startswith("'")]
+    if winfo.get('name_parts') != ['NAME', 'SUFFIX'] and (not winfo.get('name_parts') or computed or any(('vec-mutated' in x or x.startswith('?<')) for x in winfo['name_parts'])):
         rep.unproven('R2', 'writer/file-name', pc.where() if pc else wdw, 'the env file name is not decided (built from a value that is not modelled): %s' % winfo.get('name_parts'))
     else:
         rep.check(winfo.get('name_parts') == ['NAME', 'SUFFIX'], 'R2', 'writer/file-name', pc.where() if pc else wdw, 'file name = variable name + suffix',
@@ -371,7 +399,12 @@ def new_obligations(ctx, rep, prog, sl, slw, E, wd, wf, rf, weffs, nested, root)
     if not mk:
         rep.unproven('R6', 'writer/mkdir-recursive', wdw, 'no directory creation recognised in the per-directory writer')
     for e in mk:
-        rec = e.call.is_('std::fs::create_dir_all')
+        # (create_dir_all, or a DirBuilder configured with recursive(true); a builder whose configuration is not read off
+        # its value is undecided, not a breach)
+        rec = H.mkdir_recursive(slw, e)
+        if rec is None and nested:
+            rep.unproven('R6', 'writer/mkdir-recursive', e.where(), 'whether %s creates missing parents is not decided (builder configuration not recognised)' % e.call.name)
+            continue
         rep.check(rec or not nested, 'R6', 'writer/mkdir-recursive', e.where(), 'scope directories are created with their missing parents',
                   '%s creates one level only, but %s lives inside a scope directory that is not created when its own delta is empty: '
                   'writing an environment with process entries and no launch entries fails' % (e.call.name, nested))
